@@ -11,6 +11,7 @@ event (canonical, as the simulator prints worker events): ["workerready"] ["coll
   ["workerfinished", 0|1|2] ["internal_error"] ["warning_recorded"] ["garbled"] ["END"]"""
 from __future__ import annotations
 
+import itertools
 import json
 import random
 import sys
@@ -21,6 +22,8 @@ import drive_sim
 from sim import Sim
 from wsim import OUTCOMES
 
+
+_PROC = itertools.count(1000)   # the text of a collection error differs from worker to worker (pids, addresses, worker ids in reprs)
 
 def real_event(sim, n, ev):
     """the tuple a real worker would put on the channel for this canonical event"""
@@ -38,7 +41,7 @@ def real_event(sim, n, ev):
         return ("collectionfinish", {"topdir": "/", "ids": list(ids)})
     if k == "collectreport":
         key, failed = ev[1], ev[2]
-        rep = types.SimpleNamespace(passed=False, failed=bool(failed), skipped=not failed, key=key, longrepr="collect-error-%d" % key,
+        rep = types.SimpleNamespace(passed=False, failed=bool(failed), skipped=not failed, key=key, longrepr="collect-error-%d in process %d" % (key, next(_PROC)),
                                     nodeid="coll%d" % key, outcome="failed" if failed else "skipped")
         return ("collectreport", {"data": {"rep": rep}})
     if k in ("logstart", "logfinish"):
